@@ -32,10 +32,10 @@ Definition ex_cfg : config := mkCfg
     (15, mkPair 15 3 4 true 2 false);
     (16, mkPair 16 4 2 true 1 false);
     (17, mkPair 17 1 2 true 1 false)]
-  [(1, mkRates 1 700000000000000000 900000000000000000 5 false false);
-    (2, mkRates 2 500000000000000000 900000000000000000 6 false false);
-    (3, mkRates 3 800000000000000000 920000000000000000 7 true false);
-    (4, mkRates 4 600000000000000000 900000000000000000 8 true true)]
+  [(1, mkRates 1 700000000000000000 900000000000000000 5 false false 50000000000000000 80000000000000000);
+    (2, mkRates 2 500000000000000000 900000000000000000 6 false false 50000000000000000 10000000000000000);
+    (3, mkRates 3 800000000000000000 920000000000000000 7 true false 25000000000000000 10000000000000000);
+    (4, mkRates 4 600000000000000000 900000000000000000 8 true true 50000000000000000 10000000000000000)]
   [((1, 1), [1; 2; 14]);
     ((1, 2), [9; 10; 17]);
     ((2, 1), [3; 4; 13]);
@@ -71,7 +71,7 @@ Definition ex_st0 : state := mkSt [] []
   0 0 [(1, 2000000);
   (2, 1000000);
   (3, 50000000000);
-  (4, 300000)].
+  (4, 300000)] [] [] [].
 
 (* user 2 supplies asset 3; user 1 lends asset 1 (position 2) and asset 2 (position 3) *)
 Definition ex_warm : list op :=
@@ -114,3 +114,40 @@ Definition ex_liq_history : list op := ex_liq_prefix ++ [ex_handover].
 Definition ex_liq_clean_history : list op :=
   [OLend 2 3 3 1000000000 1 1 0; OLend 1 2 2 1000000000 1 1 0; OLend 3 2 2 2000000000 1 1 0;
    OBorrow 1 2 4 false 6 1000000000 3 900000 bi0 bi0; OSetPrice 2 (Some 100000); OHandOver 1 1 7000000000000000000].
+
+(* ---------- the close of a handed-over position (harness/c08_close_test.go TestC08Close, same numbers) ---------- *)
+(* finding C08-F3 (a): position 1 (900 000 of asset 3 against 1 000 000 000 cTokens of asset 2) accrues 152.83 coins of
+   interest (reserve share 152.71) in 30 days, is handed over and closed: the auction pays 945 000 (principal + 5 %), the
+   close forwards 45 000 + 152 to the reserve: the pool of asset 3 ends with 999 999 848 coins against a published total
+   lent of 1 000 000 000 and nothing lent out *)
+Definition ex_close_interest_prefix : list op :=
+  [OLend 2 3 3 1000000000 1 1 0; OLend 1 2 2 2000000000 1 1 0;
+   OBorrow 1 2 4 false 6 1000000000 3 900000 bi0 bi0;
+   OCalc 1 [mkBI 0 152833675564800000000 152709880287474000000] [0];
+   OSetPrice 2 (Some 700000); OHandOver 1 1 0].
+Definition ex_close_interest : op := OAucClose 1 945000 1 0.
+(* finding C08-F3 (b): an e-mode pair (asset 1: ordinary penalty 0.05, e-mode penalty 0.08) closed without interest *)
+Definition ex_close_emode_prefix : list op :=
+  [OLend 2 3 3 1000000000 1 1 0; OLend 3 1 1 1000000000 1 1 0;
+   OBorrow 3 2 2 false 5 500000000 3 1000000 bi0 bi0;
+   OSetPrice 1 (Some 1000000); OHandOver 1 1 0].
+Definition ex_close_emode : op := OAucClose 1 1050000 3 0.
+(* outside the class: an ordinary pair closed without interest *)
+Definition ex_close_plain_prefix : list op :=
+  [OLend 2 3 3 1000000000 1 1 0; OLend 1 2 2 2000000000 1 1 0;
+   OBorrow 1 2 4 false 6 1000000000 3 900000 bi0 bi0;
+   OSetPrice 2 (Some 700000); OHandOver 1 1 0].
+Definition ex_close_plain : op := OAucClose 1 945000 1 0.
+(* finding C10-F7 seen from the lend books: a cross-pool position on a lend position that pledged its whole AmountIn *)
+Definition ex_close_stuck_prefix : list op :=
+  [OLend 2 4 4 2000000000 2 1 0; OLend 2 3 3 1000000000 1 1 0; OLend 1 2 2 1000000000 1 1 0;
+   OBorrow 1 3 13 false 6 1000000000 4 1000000000 bi0 bi0;
+   OSetPrice 2 (Some 600000); OHandOver 1 1 0].
+Definition ex_close_stuck : op := OAucClose 1 1050000000 1 0.
+(* finding C08-F4: the generation-1 hand-over message (x/liquidation MsgLiquidateBorrow) on the same position: 333 333 333
+   coins of collateral go to the generation-1 auction, 15 873 015 to the reserve, 349 206 349 are deducted; the position is
+   flagged, its principal 900 000 stays in the published total borrowed *)
+Definition ex_v1_prefix : list op :=
+  [OLend 2 3 3 1000000000 1 1 0; OLend 1 2 2 2000000000 1 1 0;
+   OBorrow 1 2 4 false 6 1000000000 3 900000 bi0 bi0; OSetPrice 2 (Some 700000)].
+Definition ex_v1_handover : op := OHandOverV1 1 1 0 333333333 15873015 349206349.
